@@ -16,7 +16,9 @@ from .c08 import short
 from .c12 import same_view, by
 
 
-def run(ctx, res):
+def run(ctx, res, accept_only=False):
+    """accept_only: just the validation loop's rules (the chain of length fields and the exact accept condition) — shared
+    with C14, whose statement ends with parsing the built bytes as a compound"""
     F = ctx.F
     D = Disc(F)
     comp = [(d, adt) for d, adt, kind in D.parse_entries() if kind == "inherent" and D.impl_item("std::iter::Iterator", adt, "next")]
@@ -74,7 +76,7 @@ def run(ctx, res):
                    "rejected => empty, or some chain point has no room for its header or for its announced length", detail=repr(v)[:200], pc=s.pc)
     res.floor("accepting outcomes", n_ok, 1)
     res.floor("rejecting outcomes", n_err, 3)
-    if not n_ok:
+    if not n_ok or accept_only:
         return
     # ---- iterator
     X = Explorer(F, I)
